@@ -3,7 +3,10 @@
 (* drawn from a catalogue spanning two gain ranges, p_max below / above the required power, two noise figures,       *)
 (* plain / Raman / narrow-band / exactly-design-band models and the list memberships (own variety list, ROADM restriction, allowed for     *)
 (* design); a context = position (booster / inline / preamp / between two ROADMs), fibre below / above / partly above the Raman limit, own list and      *)
-(* ROADM list present or not, and a required gain half a dB off every capability boundary of the library.           *)
+(* ROADM list present or not, the configured extended-gain allowance (3 dB, or 1 dB: not the fixed 3 dB allowance     *)
+(* below the minimum gain), and a required gain half a dB off every capability boundary of the library; the required   *)
+(* power lies a tenth of a dB above / below the p_max of the catalogue (closer than the 0.3 dB window the code uses     *)
+(* when it has to fall back on the most powerful models).                                                             *)
 (* For fixed-gain models the noise figure at the required gain is nf0 + max(0, gmin - g) (input padding): exact.     *)
 (*                                                                                                                  *)
 (* (B1) TLC checks the clauses on every outcome and that the code's algorithm AS READ (CodeSketch below: filters,     *)
@@ -16,18 +19,19 @@ CONSTANTS MaxLib,        \* largest library drawn from the core catalogue
           EmitStride     \* B2: every EmitStride-th case is emitted (all are checked)
 
 cdB(x) == x * 10000
-Ext  == cdB(300)
+Ext  == cdB(300)                       \* Span.target_extended_gain: 3 dB ...
+ExtSmall == cdB(100)                   \* ... or 1 dB (variant EXT): differs from the 3 dB allowance below gain_min
 PReq == cdB(1000)                       \* 10 channels at 0 dBm
 BandMin == 193000000                    \* design band 193.0 - 193.5 THz (MHz)
 BandMax == 193500000
 
-\* rng: 1 = gain 15..20 dB, 2 = gain 18..26 dB; pw: 0 = p_max 9.5 dBm (too low), 1 = 10.5 dBm, 2 = 11.5 dBm;
+\* rng: 1 = gain 15..20 dB, 2 = gain 18..26 dB; pw: 0 = p_max 9.9 dBm (0.1 dB too low), 1 = 10.1 dBm (0.1 dB of head-room), 2 = 11.5 dBm;
 \* nf0 in centi-dB; sp: 0 plain, 1 Raman,
 \* 2 narrow band (does not cover the design band), 3 band EQUAL to the design band (covers it: edges coincide); fl: 1 = (own, rdm, alw), 2 = (rdm), 3 = (alw), 4 = (own), 5 = ()
 M(rng, pw, nf0, sp, fl) ==
     [id |-> rng * 1000000 + pw * 100000 + nf0 * 100 + sp * 10 + fl,
      gmin |-> IF rng = 1 THEN cdB(1500) ELSE cdB(1800), flat |-> IF rng = 1 THEN cdB(2000) ELSE cdB(2600),
-     pmax |-> IF pw = 0 THEN cdB(950) ELSE IF pw = 1 THEN cdB(1050) ELSE cdB(1150), nf0 |-> cdB(nf0), nf |-> 0,
+     pmax |-> IF pw = 0 THEN cdB(990) ELSE IF pw = 1 THEN cdB(1010) ELSE cdB(1150), nf0 |-> cdB(nf0), nf |-> 0,
      raman |-> (sp = 1),
      fmin |-> IF sp = 2 THEN 193200000 ELSE IF sp = 3 THEN BandMin ELSE 191275000,
      fmax |-> IF sp = 3 THEN BandMax ELSE 196125000,
@@ -38,7 +42,7 @@ Core == {M(1, 1, 500, 0, 1), M(1, 1, 600, 0, 1), M(2, 1, 500, 0, 3), M(2, 1, 600
          M(2, 1, 400, 0, 1), M(2, 1, 600, 2, 2), M(1, 1, 900, 0, 1),
          M(1, 1, 400, 3, 1),        \* quiet, band equal to the design band
          M(1, 0, 400, 1, 1),        \* quiet Raman model whose p_max is below the required power
-         M(1, 2, 504, 0, 1),        \* 0.04 dB noisier than M(1, 1, 500, 0, 1) but with 1 dB more output power
+         M(1, 2, 504, 0, 1),        \* 0.04 dB noisier than M(1, 1, 500, 0, 1) but with 1.4 dB more output power
          M(2, 2, 600, 0, 3)}        \* the only kind that can deliver the power required behind an operator VOA
 Wide == {M(rng, pw, nf0, sp, fl) : rng \in {1, 2}, pw \in {0, 1}, nf0 \in {500, 600}, sp \in {0, 1, 2, 3}, fl \in {1, 2, 3, 5}}
 
@@ -46,9 +50,9 @@ Libs == {l \in SUBSET Core : Cardinality(l) \in 1..MaxLib}
           \cup (IF WidePairs THEN {{a} : a \in Wide} \cup {{a, b} : a \in Core, b \in Wide} ELSE {})
 
 \* required gains: half a dB off every capability boundary of the library, and 19.5 dB (inside both gain ranges)
-GSet(l) == {cdB(1950)} \cup
+GSet(l, ext) == {cdB(1950)} \cup
            UNION {{a.gmin - MinGainAllowance - cdB(50), a.gmin - MinGainAllowance + cdB(50),
-                   a.flat + Ext - cdB(50), a.flat + Ext + cdB(50)}
+                   a.flat + ext - cdB(50), a.flat + ext + cdB(50)}
                     \cup (IF a.raman THEN {a.gmin - cdB(50), a.gmin + cdB(50)} ELSE {}) : a \in l}
 
 BOOSTER == 0          \* ROADM -> amplifier -> fibre
@@ -74,14 +78,18 @@ FIBRE_MIXED == 2
 \* deliver the design power 1 dB higher, in front of the VOA
 \* LOAD = the operator declares the design band of the degree on its own 37.5 GHz grid: 13 channels instead of the 10 of
 \* the SI grid, so the total power the amplifier has to deliver is 10 log10(13/10) = 1.14 dB higher
+\* EXT = the operator configured Span.target_extended_gain = 1 dB instead of 3 dB: the allowance ABOVE the flat gain
+\* shrinks, the 3 dB allowance BELOW the minimum gain (input padding) is not a setting and stays
 PLAIN == 0
 FUSED == 1
 VOA   == 2
 LOAD  == 3
+EXT   == 4
+ExtOf(var) == IF var = EXT THEN ExtSmall ELSE Ext
 UVoa  == cdB(100)
 DLoad == 1139434
 Ctx(l, g, pos, fibre, useOwn, useRdm, side, var) ==
-    [g |-> g, p |-> IF var = VOA THEN PReq + UVoa ELSE IF var = LOAD THEN PReq + DLoad ELSE PReq, variant |-> var, ext |-> Ext, pos |-> pos, useOwn |-> useOwn, useRdm |-> useRdm, rdmSide |-> side, fibre |-> fibre,
+    [g |-> g, p |-> IF var = VOA THEN PReq + UVoa ELSE IF var = LOAD THEN PReq + DLoad ELSE PReq, variant |-> var, ext |-> ExtOf(var), pos |-> pos, useOwn |-> useOwn, useRdm |-> useRdm, rdmSide |-> side, fibre |-> fibre,
      hasOwn |-> useOwn /\ \E a \in l : a.own,
      hasRdm |-> useRdm /\ \E a \in l : a.rdm /\
                 (IF var = FUSED /\ pos \in {BOOSTER, BETWEEN} THEN pos = BETWEEN /\ side \in {0, 2}     \* preamp list of the next ROADM only
@@ -95,10 +103,12 @@ AtGain(l, g) == {[a EXCEPT !.nf = a.nf0 + MaxI(0, a.gmin - g)] : a \in l}
 
 Positions == {<<BETWEEN, 0>>, <<BOOSTER, 0>>, <<INLINE, 0>>, <<INLINE, 1>>, <<INLINE, 2>>, <<PREAMP, 0>>, <<PREAMP, 1>>, <<PREAMP, 2>>}
 \* initial states are enumerated by nested quantification (a set of all cases would be normalised at great cost)
-MCInit == /\ \E l \in Libs : \E g \in GSet(l) : \E pf \in Positions : \E uo \in BOOLEAN : \E ur \in BOOLEAN :
+MCInit == /\ \E l \in Libs : \E pf \in Positions : \E uo \in BOOLEAN : \E ur \in BOOLEAN :
              \E side \in (IF ~ur \/ pf[1] = INLINE THEN {0} ELSE IF pf[1] = BOOSTER THEN {0, 2}
                           ELSE IF pf[1] = PREAMP THEN {0, 1} ELSE {0, 1, 2}) :
-             \E var \in (IF pf[2] = FIBRE_OK THEN {PLAIN, FUSED, VOA, LOAD} ELSE {PLAIN}) :
+             \E var \in (IF pf[2] = FIBRE_OK THEN {PLAIN, FUSED, VOA, LOAD} \cup (IF pf[1] \in {BOOSTER, INLINE} THEN {EXT} ELSE {})
+                         ELSE {PLAIN}) :
+             \E g \in GSet(l, ExtOf(var)) :
                 case = [lib |-> AtGain(l, g), c |-> Ctx(l, g, pf[1], pf[2], uo, ur, side, var)]
           /\ stage = "start"
           /\ permitted = {}
@@ -136,12 +146,13 @@ Spread == (case.c.g \div 500000) + case.c.pos * 3 + (IF case.c.useOwn THEN 5 ELS
             + case.c.fibre + 13 * case.c.rdmSide + 17 * case.c.variant + SumFun([a \in case.lib |-> a.id % 9973], case.lib)
 \* B2 sampling density: cases in which no permitted model is capable (membership only) are sampled four times more
 \* sparsely; cases with a TEMPTING wrong choice - some model of the library that is not admissible yet quieter than every
-\* admissible one (not listed, band, Raman rule, power, gain range) - three times more densely: there a wrong filter or
-\* ranking changes the outcome
+\* admissible one (not listed, band, Raman rule, power, gain range) - or a close call in the ranking - three times more
+\* densely: there a wrong filter or ranking changes the outcome
 Tempting == LET adm == Admissible(case.lib, case.c)
                 cap == CapableSet(case.lib, case.c, 0)
             IN \/ \E a \in case.lib : a \notin adm /\ \A b \in adm : a.nf < b.nf
                \/ \E a, b \in cap : a.nf < b.nf /\ b.nf - a.nf < 100000           \* a close call between capable models
+               \/ \E a \in adm : \E b \in cap : a # b /\ case.c.g < a.gmin          \* the quietest capable model runs below its minimum gain (padded)
 Stride == IF CapableSet(case.lib, case.c, 0) = {} THEN 4 * EmitStride
           ELSE IF Tempting THEN MaxI(1, EmitStride \div 3) ELSE EmitStride
 Emit == stage # "start" \/ Spread % Stride # 0
